@@ -6,6 +6,7 @@ mod drivers;
 mod simpipe;
 mod sched;
 mod rig;
+mod net;
 
 use std::collections::HashMap;
 
